@@ -533,6 +533,107 @@ def body_decisions(case, ctx):
 
 
 @st.composite
+def ensemble_decision_configs(draw):
+    cfg = draw(law_configs(classes=("ensemble",)))
+    cfg["flavour"] = "gauss"
+    cfg.pop("box_abs", None)
+    if cfg["target"]["kind"] != "gauss":
+        d = cfg["d"]
+        cfg["target"] = {"kind": "gauss", "d": d, "mean": [0.0] * d, "chol": [[1.0 if i == j else 0.0 for j in range(d)] for i in range(d)]}
+    cfg["iterations"] = draw(st.integers(3, 25))
+    cfg["spread"] = draw(st.sampled_from([1.0, 1.0, 3.0, 0.3]))
+    return cfg
+
+
+def body_ensemble_decisions(case, ctx):
+    """every attempt of every walker, rebuilt from the trace: partner walker by collinearity, stretch z geometrically,
+    MH probability min(1, z^(d-1) pi(Y)/pi(X_i)) computed by the harness"""
+    cfg = case
+    d = cfg["d"]
+    if d < 2:
+        raise Inconclusive("partner walker cannot be identified by collinearity in one dimension")
+    tgt = Target(cfg["target"], record=True)
+    gen = rngctl.rng(cfg["seed"], 53)
+    nw = d + cfg["ens"]["extra_walkers"] + 1
+    alpha = cfg["ens"]["alpha"]
+    pos = tgt.sample(gen, nw, T=cfg["spread"] ** 2)
+    try:
+        ch = make_sampler(cfg, None, tgt, positions=pos.copy())
+    except ValueError:
+        raise Inconclusive("degenerate walker configuration")
+    cur = pos.copy()
+    uncertain = []
+    n_acc = n_rej = 0
+    for it in range(cfg["iterations"]):
+        mark = len(tgt.trace)
+        with np.errstate(all="ignore"):
+            ch.advance(1)
+        tr = tgt.trace[mark:]
+        new = np.asarray(ch.get_sample(burn=0))[-nw:]
+        k = 0
+        for i in range(nw):
+            moved = not np.array_equal(new[i], cur[i])
+            L_i = tgt.logp(cur[i])
+            while True:
+                if k >= len(tr):
+                    if moved:
+                        raise Violation("decisions:ensemble:stored-not-evaluated", f"walker {i}: the stored position was never evaluated")
+                    break
+                Y, L_Y = tr[k]
+                k += 1
+                acc = moved and np.array_equal(Y, new[i])
+                best = None
+                for j in range(nw):
+                    if j == i:
+                        continue
+                    u = cur[i] - cur[j]
+                    zz = float(np.dot(Y - cur[j], u) / np.dot(u, u))
+                    resid = np.linalg.norm((Y - cur[j]) - zz * u) / (np.linalg.norm(u) + 1e-300)
+                    if best is None or resid < best[0]:
+                        best = (resid, zz, j)
+                if best[0] > 1e-8:
+                    raise Violation("decisions:ensemble:not-on-line", f"walker {i}: proposal {Y} is not on a line through the walker and a partner (residual {best[0]:.3g})")
+                z = best[1]
+                if not (1 / alpha - 1e-9 <= z <= alpha + 1e-9):
+                    raise Violation("decisions:ensemble:stretch-range", f"walker {i}: stretch {z:.4f} outside [1/alpha, alpha]")
+                x = (d - 1) * np.log(z) + (L_Y - L_i)
+                a = 1.0 if x >= 0 else float(np.exp(max(x, -800)))
+                if x > 1e-12 and not acc:
+                    raise Violation("decisions:ensemble:certain-move-rejected", f"walker {i}: z^(d-1) pi(Y)/pi(X) = {np.exp(min(x, 50)):.4g} >= 1 (z={z:.3f}, d={d}) but the move was rejected")
+                if a < np.exp(-45) and acc:
+                    raise Violation("decisions:ensemble:impossible-accepted", f"walker {i}: move with MH probability {a:.3g} accepted")
+                if np.exp(-45) <= a < 1.0:
+                    uncertain.append((a, acc))
+                n_acc += acc
+                n_rej += (not acc)
+                if acc:
+                    cur[i] = new[i]
+                    break
+                if not moved and k >= len(tr):
+                    break
+                if not moved and i + 1 < nw:
+                    # a walker that failed every attempt: its attempts end where the next walker's begin; with max_attempts = 100
+                    # this is rare and cannot be delimited from outside
+                    raise Inconclusive("a walker exhausted its attempts")
+        if k != len(tr):
+            raise Inconclusive("trace not fully explained")
+    if len(uncertain) >= 5:
+        probs = [a for a, _ in uncertain]
+        sacc = int(sum(k for _, k in uncertain))
+        hi, lo = poisson_binomial_tail(probs, sacc)
+        p = min(1.0, 2 * min(hi, lo))
+        ctx.stat(test="poisson-binomial", what=f"ensemble d={d} alpha={alpha}: {len(uncertain)} uncertain decisions, {sacc} accepted, expected {sum(probs):.1f}", p=p, threshold=P_FLOOR)
+        ctx.add("uncertain_decisions", len(uncertain))
+        ctx.add("accepted_minus_expected", sacc - sum(probs))
+        ctx.add("variance", sum(a * (1 - a) for a in probs))
+        if p < P_FLOOR:
+            raise Violation("decisions:ensemble:acceptance-rate", f"d={d}, alpha={alpha}: {sacc} of {len(uncertain)} uncertain stretch moves accepted where the MH probabilities z^(d-1) pi(Y)/pi(X) sum to {sum(probs):.1f} (exact Poisson-binomial p = {p:.3g})")
+    ctx.nontrivial(n_acc >= 1 and n_rej >= 1)
+    ctx.event(f"d={d}")
+    ctx.event(f"alpha={alpha}")
+
+
+@st.composite
 def hmc_extreme_configs(draw):
     cfg = draw(law_configs(classes=("hmc",)))
     cfg["flavour"] = "gauss"
@@ -577,6 +678,8 @@ SUBCHECKS = [
         shards_thorough=16, weight=300, shrink_budget=(10, 60), case_timeout=(300, 900), rule="T != 1 or limits / bounds or d >= 2"),
     Sub("decisions", lambda t: decision_configs(), body_decisions, quick=400, thorough=8000, shards_quick=16, shards_thorough=16, weight=10,
         rule="a history with >= 1 rejection and >= 1 acceptance"),
+    Sub("decisions-ensemble", lambda t: ensemble_decision_configs(), body_ensemble_decisions, quick=200, thorough=4000, shards_quick=8, shards_thorough=16, weight=20,
+        rule="a history with >= 1 rejected and >= 1 accepted stretch move (d >= 2)"),
     Sub("hmc-extreme", lambda t: hmc_extreme_configs(), body_hmc_extreme, quick=60, thorough=1500, shards_quick=6, shards_thorough=16, weight=20,
         rule=">= 3 stored moves taken with unstable step sizes"),
     Sub("full-step", lambda t: law_configs(classes=("metropolis", "gibbs", "ensemble") if t == "quick" else ("metropolis", "gibbs", "ensemble", "pca", "hmc")), body_full_step, quick=32, thorough=160, shards_quick=8, shards_thorough=16,
